@@ -431,6 +431,60 @@ fn check_pool_independence(n: usize, dim: usize, pools: &[usize], reps: usize) -
     out
 }
 
+/// par_experiment with the given problem names: afterwards the directory holds `<name>_<run>.cbor` for every
+/// problem and run, each decoding to the log of the sequential run with that seed.
+pub fn check_par_experiment_named(runs: u64, names: &[&str]) -> Vec<(String, String)> {
+    let dir = std::env::temp_dir().join(format!("mahf-mc-expn-{}-{:?}", std::process::id(), std::thread::current().id()).replace(['(', ')'], ""));
+    let _ = std::fs::remove_dir_all(&dir);
+    let problems: Vec<RealP> = names.iter().enumerate().map(|(i, n)| RealP { name: n.to_string(), ..RealP::new(2 + i, -1.0, 2.0, FKind::Sphere, Instr::new()) }).collect();
+    let config = mahf::heuristics::es::real_mu_plus_lambda_es::<RealP, ()>(mahf::heuristics::es::RealProblemParameters { population_size: 2, lambda: 2, deviation: 0.2 }, LessThanN::iterations(2)).unwrap();
+    let setup = |st: &mut State<RealP>| -> ExecResult<()> {
+        st.insert_evaluator(Sequential::<RealP>::new());
+        st.configure_log(|c| {
+            c.with(mahf::conditions::EveryN::iterations(1), mahf::lens::common::BestObjectiveValueLens::entry());
+            Ok(())
+        })
+    };
+    let mut out = vec![];
+    let head = "C15 export par_experiment";
+    match catch(|| mahf::experiments::par_experiment(&config, setup, &problems, runs, &dir, true)) {
+        Err(p) => out.push((format!("{} panic", head), p)),
+        Ok(Err(e)) => out.push((format!("{} error", head), format!("{:#}", e))),
+        Ok(Ok(())) => {
+            for p in &problems {
+                for run in 0..runs {
+                    let file = dir.join(format!("{}_{}.cbor", p.name, run));
+                    let expected = config.optimize_with(p, |st| {
+                        st.insert(Random::new(run));
+                        setup(st)
+                    });
+                    let want = match expected {
+                        Ok(st) => {
+                            let f = dir.join(format!("ref-{}-{}", p.name.replace('.', "-"), run));
+                            let r = st.log().to_cbor(&f).map_err(|e| format!("{:#}", e)).and_then(|_| decode_cbor(&f));
+                            let _ = std::fs::remove_file(&f);
+                            r
+                        }
+                        Err(e) => Err(format!("{:#}", e)),
+                    };
+                    match (decode_cbor(&file), want) {
+                        (Ok(g), Ok(w)) if g == w => {}
+                        (Ok(g), Ok(w)) => out.push((format!("{} log-differs-from-sequential-run", head), format!("{}: {} vs {}", file.display(), g.chars().take(200).collect::<String>(), w.chars().take(200).collect::<String>()))),
+                        (Err(e), _) => {
+                            let present: Vec<String> = std::fs::read_dir(&dir).map(|d| d.filter_map(|x| x.ok()).map(|x| x.file_name().to_string_lossy().to_string()).collect()).unwrap_or_default();
+                            out.push((format!("{} log-file-missing", head), format!("no log export for run {} of problem {:?} ({}); files written: {:?}", run, p.name, e, present)));
+                        }
+                        (_, Err(e)) => out.push((format!("{} reference-failed", head), e)),
+                    }
+                }
+            }
+        }
+    }
+    let _ = std::fs::remove_dir_all(&dir);
+    out.dedup_by(|a, b| a.0 == b.0);
+    out
+}
+
 /// A run does not depend on what the executing thread ran before: X alone on a fresh thread = X after Y on a
 /// fresh thread, for runs of the same template on other parameter sets / instances (and after X itself).
 fn check_thread_history(specs: &[Box<dyn AnySpec>], ix: usize, iy: usize, seed: u64) -> Option<(String, String)> {
